@@ -748,6 +748,7 @@ package graphql
 //@   nopanic
 //@   pure
 //@ func UnmarshalUUID [C08,C02]
+//@   replay uuidRoundTrip.go.tmpl
 //@   nopanic
 //@   ghost perr = nil
 //@   ghost parsed = false
